@@ -48,7 +48,7 @@ type c19Sys struct {
 }
 
 func newC19Sys(cfg RouterCfg) *c19Sys {
-	s := &c19Sys{a: NewRouter(cfg), facs: map[string]any{}}
+	s := &c19Sys{a: NewRouter(cfg, mux.WithURLDomain("https://d")), facs: map[string]any{}}
 	var build func(name string) any
 	build = func(name string) any {
 		if f, ok := s.facs[name]; ok {
@@ -194,6 +194,8 @@ func c19Alphabet() []fstep {
 		{F: "R", K: "url", Strict: true, Params: map[string]string{"id": "5"}},
 		{F: "R", K: "url", Params: map[string]string{"x": "5"}},
 		{F: "Rq", K: "url", Strict: true},
+		{F: "Pp", K: "url", P: "/{z}"}, // no parameters at all
+		{F: "R", K: "url"},
 		// four more literal siblings under /p/ in one step: the node gets its first-byte index
 		{F: "Pp", K: "fill"},
 		{F: "Ps", K: "remove", P: "a2"},
@@ -349,7 +351,7 @@ func c19Vector(r *Router) []string {
 }
 
 func buildC19(cfg RouterCfg, steps []fstep) (a *c19Sys, b *Router, perr string) {
-	a, b = newC19Sys(cfg), NewRouter(cfg)
+	a, b = newC19Sys(cfg), NewRouter(cfg, mux.WithURLDomain("https://d"))
 	for _, s := range steps {
 		_, pa, ba := applyFacade(a, s)
 		_, _, bb := applyPlain(b, s)
